@@ -42,11 +42,13 @@ def is_cal_shl(name: str) -> bool:
 def classify(relpath: str, kind: str, size: int, *, include_meson: bool = False,
              vcs_ignored: bool = False, in_submodule: bool = False, include_submodules: bool = False,
              symlinked_ancestor: bool = False):
-    """*kind*: 'file' or 'symlink' (to anything).  Returns (verdict, reason)."""
+    """*kind*: 'file', 'symlink' (to anything) or 'special' (socket, named pipe, device).  Returns (verdict, reason)."""
     parts = relpath.split("/")
     dirs, name = parts[:-1], parts[-1]
     if kind == "symlink":
         return EXCLUDED, "symlink"
+    if kind == "special":
+        return EXCLUDED, "not-a-regular-file"
     if symlinked_ancestor:
         return EXCLUDED, "below-symlinked-directory"
     for depth, d in enumerate(dirs):
